@@ -67,14 +67,18 @@ def build(rng: random.Random, combo: tuple, transport: str, order: str) -> dict:
     # the verdict came first in stream order, so the specific error is still what the call must raise
     trailer = None
     if order in ("normal", "split", "one_by_one") and rng.random() < 0.3:
-        trailer = pick(rng, ["dev_disconnect", "bad_payload", "dev_disconnect+state"])
-        tmsgs: list = {"dev_disconnect": [["DisconnectRequest", {}]], "bad_payload": [{"type": 10, "payload_hex": "0aff01", "name": "#bad_payload"}], "dev_disconnect+state": [["DisconnectRequest", {}], ["SwitchStateResponse", {"key": 1, "state": True}]]}[trailer]
+        trailer = pick(rng, ["dev_disconnect", "bad_payload", "dev_disconnect+state", "fin", "fin"])  # (a reset could discard the verdict unread)
+        tmsgs: list = {"dev_disconnect": [["DisconnectRequest", {}]], "bad_payload": [{"type": 10, "payload_hex": "0aff01", "name": "#bad_payload"}], "dev_disconnect+state": [["DisconnectRequest", {}], ["SwitchStateResponse", {"key": 1, "state": True}]], "fin": []}[trailer]
         last_req, last_msg = ("ConnectRequest", cr) if login else ("HelloRequest", hr)
         rep = device.setdefault("replies", {}).get(last_req)
         if rep and isinstance(rep[0], dict):
             rep[0]["msgs"] = list(rep[0]["msgs"]) + tmsgs
         else:
             device["replies"][last_req] = [{"msgs": [last_msg] + tmsgs}]
+        if trailer == "fin":
+            # the device drops the TCP connection right behind its verdict: whatever the library still tries to write then
+            # fails - the verdict it has received in full is still what the call reports
+            device["replies"][last_req][0]["then"] = trailer
     if expected is not None and rng.random() < 0.15:
         # the expected name is configured on the client between the two connect phases (public setter)
         client.pop("expected_name", None)
@@ -91,7 +95,9 @@ def build(rng: random.Random, combo: tuple, transport: str, order: str) -> dict:
         "device": device,
         "net": {"cuts": gen_cuts(rng), "c2d_latency": pick(rng, [0.0, 0.001]), "d2c_latency": [pick(rng, [0.0, 0.001, 0.02])]},
         "actors": [{"id": "a0", "at": {"t": 0.0}, "steps": steps}],
-        "events": [],
+        # in a tenth of the runs the transport refuses every further write from the moment the device has sent its last
+        # answer (a uvloop transport whose peer is gone): nothing the library may still want to say changes the verdict
+        "events": [{"at": {"on": "dev_tx", "match": {"name": "ConnectResponse" if login else "HelloResponse"}}, "do": "fault", "kind": "write_raises", "always": True, "exc": pick(rng, ["OSError", "RuntimeError"])}] if rng.random() < 0.1 else [],
         "end": 200.0,
     }
 
